@@ -255,7 +255,7 @@ PROPS = {
         'oracles': ['C11'], 'bv_decide': True,
         'geoms': {'quick': ['default', 'th1'], 'thorough': ALLG},
         'runs': {'quick': [unit('ent', 2000), seq('single', 20, 150)], 'thorough': [unit('ent', 200000), seq('single', 150, 300), seq('mixed', 200, 300)]},
-        'rule': S_RULE + (' Single-slot flavor: one class with one slot, base-order gets through the slot, frees with and without the slot, exhaust '
+        'rule': S_RULE + ('single-slot histories: the requesting class with one slot, alone or with further classes above it (trees then start in the default class and are demoted on the way; ordered repository policies); ' + ' Single-slot flavor: one class with one slot, base-order gets through the slot, frees with and without the slot, exhaust '
                           'phases; oracle: with one slot a get fails only when the shadow state has no free frame (frees counted globally are '
                           'synchronised back into the slot).') + E_RULE,
         'partial': ('proved end to end for every invariant state of a one-class one-slot allocator with more trees than slots and no offline trees; '
